@@ -37,6 +37,8 @@ def routing_configs(sizes=(5, 8)):
         ]
         for p in MTVRP_PRESETS:
             out.append(dict(env="mtvrp", n=n, preset=p))
+        for p, sp in (("vrptw", 2.0), ("vrpbltw", 1.5), ("ovrptw", 0.5), ("vrpltw", 2.0)):
+            out.append(dict(env="mtvrp", n=n, preset=p, speed=sp))
         ne = n + (n % 2)
         for rm, pm, dm, dep in (("minmax", "close", "L2", 2), ("minsum", "open", "L1", 3), ("lateness", "close", "L2", 3), ("minsum", "close", "L2", 1),
                                 ("minmax", "open", "L2", 2), ("lateness", "open", "L1", 2)):
@@ -83,7 +85,10 @@ def make(cfg):
         gp = dict(num_loc=n, num_depot=cfg.get("depots", 2), min_capacity=1, max_capacity=cfg.get("max_cap", 3), depot_mode=cfg.get("depot_mode", "multiple"))
         return E.MDCPDPEnv(generator_params=gp, reward_mode=cfg["reward_mode"], problem_mode=cfg["problem_mode"], dist_mode=cfg["dist_mode"], **kw), R.MDCPDP
     if name == "mtvrp":
-        return E.MTVRPEnv(generator_params=dict(num_loc=n, variant_preset=cfg.get("preset", "all")), **kw), R.MTVRP
+        gp = dict(num_loc=n, variant_preset=cfg.get("preset", "all"))
+        if "speed" in cfg:  # non-default vehicle speed (time = distance / speed); slow vehicles get a longer horizon
+            gp.update(speed=cfg["speed"], max_time=4.6 if cfg["speed"] >= 1 else 10.0)
+        return E.MTVRPEnv(generator_params=gp, **kw), R.MTVRP
     raise KeyError(name)
 
 
